@@ -63,6 +63,10 @@ func fileSets() map[string][]fileSpec {
 	return map[string][]fileSpec{
 		"crowd":           crowd,
 		"licensed":        {{"LICENSE", "Some project\n\n" + mit}},
+		// sizes around the line reader's buffer (32 / 64 KiB): a 35 KB license without a final line
+		// break, and a license that starts behind 70 KB of other lines
+		"big-no-trailing-nl": {{"COPYING", "This program comes with a copy of the license.\n\n" + strings.TrimRight(read("License/GPL-3.0/license.txt"), "\n") + "\n\n" + strings.TrimRight(strings.Repeat("appendix line without meaning\n", 40), "\n")}},
+		"license-after-64k":  {{"NOTES", strings.Repeat("some unrelated line of notes that fills the file\n", 1330) + mit + "\n" + strings.Repeat("more unrelated lines behind the license text\n", 1600)}},
 		"latin1":          {{"LICENSE", "Copyright \xa9 2020 Foo GmbH, M\xfcnchen\n\n" + mit + "\nGr\xfc\xdfe\n"}},
 		"unlicensed":      {{"README", "just words, nothing else\nsecond line\n"}},
 		"nested":          {{"a/b/LICENSE", mit}, {"a/c/NOTES", "plain text\n"}, {"a/b/d/COPYING", bsd}},
@@ -136,7 +140,7 @@ func c19CLI(c *vrep.Ctx) {
 	}
 	sort.Strings(names)
 	if !c.Thorough() {
-		names = []string{"licensed", "unlicensed", "nested", "crlf", "long-line-first", "header-only", "copyright-only", "no-trailing-nl", "identical-twins", "crowd", "latin1"}
+		names = []string{"licensed", "unlicensed", "nested", "crlf", "long-line-first", "header-only", "copyright-only", "no-trailing-nl", "identical-twins", "crowd", "latin1", "big-no-trailing-nl", "license-after-64k"}
 	}
 	taskMenu := []string{"1", "2", "16", "default"}
 	c.R.Rule = fmt.Sprintf("the real identify_license binary built from the current tree, over %d file sets (licensed, unlicensed, nested directories, no trailing newline, CRLF, a 70 000-character line, empty file, header-only, copyright-only, two licenses in one file, many files, 1100 files) x {-headers} x {plain, -json -include_text} x -tasks %v: stdout lines (as a multiset), JSON Text (= lines StartLine..EndLine of the file) and exit status compared with in-process DefaultClassifier().Match on the file bytes; quick tier samples the flag combinations round-robin, thorough runs all; non-trivial = runs that reported at least one line", len(names), taskMenu)
